@@ -4,6 +4,9 @@ package ctl
 // @Method(GET)
 // @Route(/count)
 // @Response(200) The count
+// @ErrorResponse(400) Bad request
+// @ErrorResponse(400) Bad request, said twice: the repetition is ignored with a warning
+// @ErrorResponse(503) Unavailable: an error code that follows a repeated one must still be documented
 func (c *AlphaController) CountAlpha() (int, error) {
 	return 0, nil
 }
